@@ -4,4 +4,4 @@ Require Extraction.
 Require Import ExtrOcamlBasic.
 From Algo.C05 Require Import Model Spec.
 Extraction Language OCaml.
-Extraction "model.ml" new step layout_of cmp_min cmp_max cmp_sub cmp_sub3 cmp_rsub spec_step empty_map held_count extremal.
+Extraction "model.ml" new step layout_of cmp_min cmp_max cmp_sub cmp_sub3 cmp_rsub spec_step empty_map held_count extremal max_degree_go.
